@@ -7,14 +7,14 @@ uses + - * / max min abs on them, so every output is a rational with a small den
     |x - p/q| <= TOL * max(1, |x|)   and   q <= QMAX
 
 Two distinct rationals with denominators <= QMAX differ by at least 1/QMAX^2 = 1e-12 > 2*TOL
-only when |x| is O(1); the bound on q is therefore tightened for large |x| (relative spacing).
+(1/QMAX^2 = 4e-12 > 2*TOL).
 A value that cannot be certified is returned as NAR (<<0, 0>> on the TLA+ side), never guessed.
 """
 from fractions import Fraction
 import math
 
-TOL = 1e-11
-QMAX = 200_000
+TOL = 1e-12
+QMAX = 500_000
 NAR = (0, 0)           # "not a (small) rational"
 INT_LIMIT = 2**31 - 1
 
